@@ -244,7 +244,15 @@ let handle (case : string) (out : string) : unit =
          if file_okb stmts then begin
            count ("interp:file-theorem-applies:" ^ kind);
            let said = string_of_result (file_says stmts) in
-           if said <> impl then report_diverge "C19" case_s (short impl_raw) ("file_says: " ^ short said)
+           if said <> impl then report_diverge "C19" case_s (short impl_raw) ("file_says: " ^ short said);
+           (* the extra hypotheses of the fragment theorems (scalars / definitions+parameter data+modules / slots) *)
+           let h1 = nodupb (set_targets (sets_of stmts)) and h2 = ids_unique stmts and h3 = modules_first stmts in
+           if h1 then count "fragment:scalars-applies";
+           if h2 then count "fragment:prm-modules-applies";
+           if h3 then count "fragment:slots-applies";
+           if (kind = "REN" || kind = "SET") && not (h1 && h2 && h3) then
+             report_diverge "C19" case_s "rendered file"
+               (Printf.sprintf "hypotheses of the fragment theorems fail (no field twice %b, unique ids %b, modules first %b)" h1 h2 h3)
          end else begin
            count ("file:hypotheses-fail:" ^ outcome);
            if kind = "REN" || kind = "SET" then
